@@ -4,7 +4,7 @@
    Sql.v object tree itself (the same tree whose rendering is compared byte for byte with the
    implementation's SQL), for the fragment these planners emit:
      - comparisons == != < <= > >= over integers, strings and dates (UInt8 0/1 results);
-       `and` / `or` lists;  `x IN (a, b, ..)`;  `x IN (cte)`;
+       `and` / `or` lists;  `x IN (a, b, ..)`;  `x IN (cte)`;  `x IN (SELECT ..)` (UInt8 0/1 as well);
      - match(haystack, pattern) = RE2 *search* (ClickHouse docs: "checks whether the string matches the
        regular expression pattern in re2 syntax"; an unanchored pattern may match anywhere) — the
        regular-expression engine is the oracle `re_match`;
@@ -117,6 +117,9 @@ Section EVAL.
         | [WRef _ q] => match v, cte q with
                         | VI z, Some fps => Some (b2v (existsb (N.eqb (Z.to_N z)) fps))
                         | _, _ => None end
+        | [SubQ q] => match v, cte q with                    (* x IN (SELECT ..): the same, the query written in place *)
+                      | VI z, Some fps => Some (b2v (existsb (N.eqb (Z.to_N z)) fps))
+                      | _, _ => None end
         | _ => match all_some (evl r) with
                | Some vs => omap (fun bs => b2v (existsb (fun b => b) bs)) (all_some (map (val_eqb v) vs))
                | None => None end
@@ -220,7 +223,10 @@ Section MAIN.
   Definition no_cte : select -> option (list N) := fun _ => None.
 
   (* fp_sel evaluated over the label index *)
-  Definition eval_fp_sel (q : select) (gin : list ginrow) : list N := eval_fpq re_match no_cte q (map gin_env gin).
+  (* a fingerprint query may itself use fingerprint IN (SELECT fingerprint ..) (one level: the sub-queries of
+     fingerprintsQuery are plain label-index queries over the same table) *)
+  Definition eval_fp_sel (q : select) (gin : list ginrow) : list N :=
+    eval_fpq re_match (fun q' => Some (eval_fpq re_match no_cte q' (map gin_env gin))) q (map gin_env gin).
 
   (* aliases of the SELECT list, evaluated over the table row, shadow the table's columns *)
   Definition alias_env (cte : select -> option (list N)) (cols : list expr) (base : env) : env := fun n =>
@@ -345,10 +351,18 @@ Section READING.
     {| c_key := m_name m;
        c_cond := match m_op m with MEq => VEq (m_val m) | MNeq => VNeq (m_val m) | MRe => VRe (m_val m) | MNre => VNre (m_val m) end |}.
 
-  (* the sample rows of the raw query: ts in (from, to], type in (t, 0), fingerprint selected;
-     ordered by (fingerprint, timestamp_ns) *)
+  (* fingerprintsQuery after fix e2b3950 (absent labels): pos = the matchers that reject "" (witnessed by index rows),
+     neg = the inverses of the matchers that accept "": a fingerprint with an index row satisfying one of them is
+     left out.  The exclusion is applied to the rows before grouping; it depends on the fingerprint only. *)
+  Definition rejected (D t : Z) (neg : list clause) (gin : list ginrow) (fp : N) : bool :=
+    existsb (fun n => existsb (N.eqb fp) (fp_sel D t [n] gin)) neg.
+  Definition fp_sel_abs (D t : Z) (pos neg : list clause) (gin : list ginrow) : list N :=
+    fp_sel D t pos (filter (fun r => negb (rejected D t neg gin (g_fp r))) gin).
+
+  (* the sample rows of the raw query: from <= ts < to + 1 ms (in milliseconds: [Start, End]), type in (t, 0),
+     fingerprint selected; ordered by (fingerprint, timestamp_ns) *)
   Definition sample_ok (from_ns to_ns t : Z) (fps : list N) (s : samplerow) : bool :=
-    (from_ns <? sm_ts_ns s)%Z && (sm_ts_ns s <=? to_ns)%Z && ((sm_type s =? t)%Z || (sm_type s =? 0)%Z)
+    (from_ns <=? sm_ts_ns s)%Z && (sm_ts_ns s <? to_ns + 1000000)%Z && ((sm_type s =? t)%Z || (sm_type s =? 0)%Z)
     && existsb (N.eqb (sm_fp s)) fps.
   Definition sample_lt (a b : samplerow) : bool :=
     N.ltb (sm_fp a) (sm_fp b) || (N.eqb (sm_fp a) (sm_fp b) && Z.ltb (sm_ts_ns a) (sm_ts_ns b)).
